@@ -1,31 +1,392 @@
-//! C14 — placeholder (not registered in MANIFEST until built).
+//! C14 — undeclared access never commits.
+//!
+//! A C01/C02 tick of honest programs plus exactly one *violator* whose declared footprint omits
+//! exactly one access it performs (or that writes into another instance / emits an instance-level
+//! op / additionally panics). Its scope places it at any canonical position and in any work unit;
+//! worker count and claim tape (hook H1) put it on any worker. Oracle: the commit unwinds with a
+//! violation naming the omitted access and nothing of the tick is visible; an omitted *write*
+//! access that is not flagged is a violation exactly when the location it guards changed
+//! (attribution completeness, black-box).
 
 use serde::{Deserialize, Serialize};
+use warp_core::{EdgeId, NodeId, ViolationKind};
 
-use crate::kernel::{Outcome, PropertySpec, Rng, RunCtx, Scenario, Tier};
+use crate::kernel::{harness_error, Outcome, PropertySpec, Rng, RunCtx, Scenario, Tier};
+use crate::model::refstate::{RefKey, RefState};
+use crate::props::c01::{check_against_reference, gen_tick, knobs};
+use crate::props::c02::gen_tape;
+use crate::world::gen::{gen_prog, StateSpec};
+use crate::world::ids;
+use crate::world::prog::{Access, Decl, FpClass, Step, N};
+use crate::world::rules::N_RULES;
+use crate::world::tick::{ref_tick, run_tick, Cand, EngineCfg, TickResult};
 
 pub const SPEC: PropertySpec = PropertySpec {
     id: "C14",
     level: "exploration",
-    rule: "placeholder",
-    quick_runs: 1,
-    thorough_runs: 1,
-    real_components: &[],
-    stub_components: &[],
-    assumptions: &[],
-    fault_kinds: &[],
+    rule: "scenario = honest tick (as C01/C02) + one violator program (omits exactly one read or write access it performs / cross-instance write / instance-level op / each optionally followed by a panic) at a seeded canonical position and (instance, shard) work unit + worker count + claim tape (H1); non-trivial = the violator was accepted by the scheduler and executed next to >=1 honest accepted rewrite; distinct = (violation kind, omitted access class, position, worker that ran it, tick)",
+    quick_runs: 6_000,
+    thorough_runs: 300_000,
+    real_components: &["footprint_guard (check_node_read/check_edge_read/check_attachment_read/check_op/op_write_targets)", "guarded GraphView", "parallel::exec::execute_item_enforced / PoisonedDelta", "Engine::commit_with_receipt merge + unwind"],
+    stub_components: &["application rules: data-driven interpreter with a declared-footprint mode per program", "OS thread scheduler: claim controller baton"],
+    assumptions: &["enforcement is compiled in (the simulator builds warp-core with debug assertions)", "the honest footprint derivation of the harness is the conservative reading of what each op can change in the pre-tick state"],
+    fault_kinds: &["fault.undeclared_read", "fault.undeclared_write", "fault.cross_instance_write", "fault.instance_op", "fault.executor_panic"],
 };
+
+#[derive(Clone, Debug, Serialize, Deserialize, PartialEq, Eq)]
+pub enum Dishonesty {
+    Omit { class: FpClass, k: u8 },
+    CrossWarp { w: u8 },
+    InstanceOp { w: u8 },
+    DeleteInstance { w: u8 },
+    /// honest footprint, but the executor panics after emitting
+    PanicOnly,
+}
 
 #[derive(Clone, Debug, Serialize, Deserialize)]
 pub struct C14 {
-    pub placeholder: u8,
+    pub state: StateSpec,
+    pub cands: Vec<Cand>,
+    /// index into cands of the violator
+    pub violator: usize,
+    pub dishonesty: Dishonesty,
+    pub also_panic: bool,
+    pub workers: usize,
+    pub tape: Vec<u16>,
+    pub legacy: bool,
 }
 
 impl Scenario for C14 {
-    fn generate(_rng: &mut Rng, _tier: Tier, _avoid: bool) -> Self {
-        C14 { placeholder: 0 }
+    fn generate(rng: &mut Rng, _tier: Tier, avoid: bool) -> Self {
+        let n_small = rng.urange(0, 8);
+        let (mut state, mut cands) = gen_tick(rng, avoid, false, n_small);
+        // the violator: non-conditional program
+        let mut kn = knobs(rng, avoid);
+        kn.absent_16 = 0;
+        kn.max_steps = rng.urange(1, 4);
+        let wi = rng.usize_below(state.insts.len());
+        let rule = rng.below(u64::from(N_RULES)) as u8;
+        let mut prog = gen_prog(rng, &state, wi, rule, 0x4000_0000, &kn);
+        prog.steps.retain(|s| !matches!(s, Step::IfEdge { .. }));
+        if prog.steps.is_empty() {
+            prog.steps.push(Step::ReadNode(N::D(0)));
+        }
+        let this_w = state.insts[wi].w;
+        let other_w = (this_w + 1 + rng.below(2) as u8) % ids::N_WARPS;
+        let dishonesty = match rng.weighted(&[10, 2, 1, 1, 1]) {
+            0 => Dishonesty::Omit {
+                class: *rng.pick(&[FpClass::NRead, FpClass::NWrite, FpClass::ERead, FpClass::EWrite, FpClass::ARead, FpClass::AWrite]),
+                k: rng.below(8) as u8,
+            },
+            1 => Dishonesty::CrossWarp { w: other_w },
+            2 => Dishonesty::InstanceOp { w: rng.below(u64::from(ids::N_WARPS)) as u8 },
+            3 => Dishonesty::DeleteInstance { w: other_w },
+            _ => Dishonesty::PanicOnly,
+        };
+        // make sure a program asked to omit a class actually performs an access of that class
+        if let Dishonesty::Omit { class, .. } = &dishonesty {
+            let n = N::D(rng.below(u64::from(kn.node_pool.max(1))) as u8);
+            let e = rng.below(u64::from(kn.edge_pool.max(1))) as u8;
+            let have = |steps: &[Step], f: &dyn Fn(&Step) -> bool| steps.iter().any(f);
+            match class {
+                FpClass::NRead if !have(&prog.steps, &|s| matches!(s, Step::ReadNode(_) | Step::ReadAdj(_) | Step::CountAdjInto { .. } | Step::NodeInfoInto { .. })) => prog.steps.insert(0, if rng.chance(1, 2) { Step::ReadNode(n) } else { Step::ReadAdj(n) }),
+                FpClass::ERead if !have(&prog.steps, &|s| matches!(s, Step::HasEdge(_) | Step::EdgeFlagInto { .. })) => prog.steps.insert(0, Step::HasEdge(e)),
+                FpClass::ARead if !have(&prog.steps, &|s| matches!(s, Step::ReadNodeAtt(_) | Step::ReadEdgeAtt(_) | Step::CopyNodeAtt { .. } | Step::CopyEdgeAttInto { .. })) => {
+                    prog.steps.insert(0, if rng.chance(1, 2) { Step::ReadNodeAtt(n) } else { Step::ReadEdgeAtt(e) })
+                }
+                _ => {}
+            }
+        }
+        match &dishonesty {
+            Dishonesty::Omit { class, k } => prog.decl = Decl::Omit { class: *class, k: *k },
+            Dishonesty::CrossWarp { w } => prog.steps.push(Step::CrossWarpUpsert { w: *w, n: N::D(0), ty: 1 }),
+            Dishonesty::InstanceOp { w } => prog.steps.push(Step::InstanceOp { w: *w }),
+            Dishonesty::DeleteInstance { w } => prog.steps.push(Step::DeleteInstance { w: *w }),
+            Dishonesty::PanicOnly => {}
+        }
+        let also_panic = matches!(dishonesty, Dishonesty::PanicOnly) || rng.chance(1, 4);
+        if also_panic {
+            prog.steps.push(Step::Panic);
+        }
+        let k = 500 + rng.below(200) as u16;
+        let shard = rng.below(4) as u8;
+        state.insts[wi].progs.push((k, shard, prog));
+        cands.push(Cand { rule, w: this_w, k, shard });
+        let violator = cands.len() - 1;
+        let workers = rng.urange(1, 4);
+        let tape = gen_tape(rng, workers, cands.len() + workers + 1);
+        C14 { state, cands, violator, dishonesty, also_panic, workers, tape, legacy: rng.chance(1, 6) }
     }
-    fn execute(&self, _ctx: &mut RunCtx) -> Outcome {
-        Outcome::Ok
+
+    fn execute(&self, ctx: &mut RunCtx) -> Outcome {
+        let pre = match self.state.build_ref() {
+            Ok(p) => p,
+            Err(e) => return Outcome::violation("harness:ref_state_build", e),
+        };
+        let reference = ref_tick(&pre, &self.cands);
+        let Some(vc) = self.cands.get(self.violator) else { return Outcome::Ok };
+        let vpos = reference.order.iter().position(|c| c.cand == *vc);
+        let v_accepted = vpos.is_some_and(|p| reference.accepted[p]);
+        let arrival: Vec<usize> = (0..self.cands.len()).collect();
+        let cfg = EngineCfg { legacy_scheduler: self.legacy, workers: self.workers, rule_order: (0..N_RULES).collect(), other_tx: vec![] };
+        let obs = match run_tick(&self.state, &self.cands, &arrival, &cfg, if self.workers > 1 { Some(&self.tape) } else { None }) {
+            Ok(o) => o,
+            Err(e) => return Outcome::violation("state_construction_failed", e),
+        };
+        if obs.overlap {
+            harness_error("claim controller overlap");
+        }
+        ctx.count("time.ticks", 1);
+        ctx.trace_str(&format!("{:?}", obs.claim_log));
+        if !v_accepted {
+            // The violator never executes: the tick must behave like an honest tick.
+            ctx.hit("reach.violator_not_admitted");
+            if reference.post.is_err() {
+                return Outcome::Ok;
+            }
+            return match check_against_reference(&pre, &reference, &obs, ctx) {
+                Ok(()) => Outcome::Ok,
+                Err(v) => v,
+            };
+        }
+        let vref = &reference.order[vpos.unwrap_or(0)];
+        let honest_accepted = reference.accepted.iter().filter(|a| **a).count().saturating_sub(1);
+        // which dishonesty actually takes effect?
+        let expected: Expected = match &self.dishonesty {
+            Dishonesty::Omit { .. } => match vref.omitted {
+                None => Expected::NothingWrong,
+                Some(a) => Expected::Omitted(a),
+            },
+            Dishonesty::CrossWarp { w } => Expected::Kind(format!("{:?}", ViolationKind::CrossWarpEmission { op_warp: ids::warp(*w) })),
+            Dishonesty::InstanceOp { .. } | Dishonesty::DeleteInstance { .. } => Expected::Kind(format!("{:?}", ViolationKind::UnauthorizedInstanceOp)),
+            Dishonesty::PanicOnly => Expected::NothingWrong,
+        };
+        match &expected {
+            Expected::Omitted(a) => match a.class() {
+                FpClass::NRead | FpClass::ERead | FpClass::ARead => ctx.hit("fault.undeclared_read"),
+                _ => ctx.hit("fault.undeclared_write"),
+            },
+            Expected::Kind(k) if k.starts_with("CrossWarp") => ctx.hit("fault.cross_instance_write"),
+            Expected::Kind(_) => ctx.hit("fault.instance_op"),
+            Expected::NothingWrong => {}
+        }
+        if self.also_panic {
+            ctx.hit("fault.executor_panic");
+        }
+        if honest_accepted >= 1 {
+            let worker = obs.claim_log.iter().flatten().next().copied().unwrap_or(0);
+            let sig = format!("{:?}|{:?}|{}|{}|{}", self.dishonesty, vref.omitted.map(|a| a.class()), vpos.unwrap_or(0), worker, serde_json::to_string(&self.cands).unwrap_or_default());
+            ctx.nontrivial(sig.as_bytes());
+        }
+        if self.workers > 1 {
+            ctx.hit("reach.violator_with_parallel_workers");
+        }
+        let unchanged = obs.post == pre;
+        match (&expected, &obs.result) {
+            // --- must be flagged ---
+            (Expected::Kind(k), TickResult::Violation { kind, .. }) => {
+                if kind != k {
+                    return Outcome::violation("wrong_violation_reported", format!("expected {k}, got {kind}"));
+                }
+                if !unchanged {
+                    return Outcome::violation("failed_tick_visible", "state changed although the commit unwound".to_owned());
+                }
+                Outcome::Ok
+            }
+            (Expected::Kind(k), other) => Outcome::violation("illegal_op_not_flagged", format!("expected violation {k}, got {}", short(other))),
+            (Expected::Omitted(a), TickResult::Violation { kind, with_panic }) => {
+                let exp = expected_kind(a);
+                if *kind != exp {
+                    return Outcome::violation("wrong_violation_reported", format!("omitted {a:?}: expected {exp}, got {kind}"));
+                }
+                let is_write = matches!(a.class(), FpClass::NWrite | FpClass::EWrite | FpClass::AWrite);
+                if is_write && self.also_panic != *with_panic {
+                    return Outcome::violation("panic_payload_lost", format!("also_panic={} but with_panic={with_panic}", self.also_panic));
+                }
+                if !unchanged {
+                    return Outcome::violation("failed_tick_visible", "state changed although the commit unwound".to_owned());
+                }
+                Outcome::Ok
+            }
+            (Expected::Omitted(a), TickResult::Committed(_)) => {
+                let is_write = matches!(a.class(), FpClass::NWrite | FpClass::EWrite | FpClass::AWrite);
+                if !is_write {
+                    return Outcome::violation(format!("undeclared_read_committed:{:?}", a.class()), format!("omitted {a:?} was read and the tick committed"));
+                }
+                // Attribution completeness: a missing write declaration that is not demanded is a
+                // violation exactly when the guarded location's observable content changed.
+                if location_changed(a, vc, &pre, &obs.post) {
+                    let shape = if is_prev_source_only(a, vref, vc) { "reparent_previous_source" } else { "other" };
+                    Outcome::violation(
+                        format!("undeclared_write_committed:{:?}:{shape}", a.class()),
+                        format!("omitted {a:?}; the tick committed and the guarded location changed"),
+                    )
+                } else {
+                    ctx.hit("reach.unflagged_write_on_unchanged_location");
+                    Outcome::Ok
+                }
+            }
+            (Expected::Omitted(a), TickResult::Panic(_)) if self.also_panic && is_prev_source_only(a, vref, vc) => {
+                // The guard does not demand the previous source node of a re-parented edge (see the
+                // `reparent_previous_source` class); here the program's own panic failed the tick, so
+                // nothing was committed and nothing is violated in this run.
+                ctx.hit("reach.prev_source_omission_hidden_by_panic");
+                if !unchanged {
+                    return Outcome::violation("failed_tick_visible", "state changed although the commit unwound (panic)".to_owned());
+                }
+                Outcome::Ok
+            }
+            (Expected::Omitted(a), TickResult::Panic(p)) => {
+                // acceptable only if the program panics by itself before performing the access: our Panic step is last,
+                // so a bare panic means the violation was lost.
+                Outcome::violation("violation_lost_behind_panic", format!("omitted {a:?}; got bare panic {p}"))
+            }
+            (Expected::Omitted(a), TickResult::EngineErr(e)) => {
+                // The merged ops may legitimately fail to apply only if the reference says so.
+                if reference.post.is_err() {
+                    ctx.hit("reach.violator_tick_errors_anyway");
+                    Outcome::Ok
+                } else {
+                    Outcome::violation("undeclared_access_not_flagged", format!("omitted {a:?}; engine returned {e}"))
+                }
+            }
+            // --- nothing wrong with the footprint ---
+            (Expected::NothingWrong, TickResult::Violation { kind, .. }) => Outcome::violation("honest_program_flagged", format!("no access omitted, but flagged: {kind}")),
+            (Expected::NothingWrong, TickResult::Panic(_)) => {
+                if !self.also_panic {
+                    return Outcome::violation("commit_panicked", format!("{}", short(&obs.result)));
+                }
+                if !unchanged {
+                    return Outcome::violation("failed_tick_visible", "state changed although the commit unwound (panic)".to_owned());
+                }
+                Outcome::Ok
+            }
+            (Expected::NothingWrong, _) => {
+                if self.also_panic {
+                    return Outcome::violation("executor_panic_swallowed", format!("program panics but commit returned {}", short(&obs.result)));
+                }
+                if reference.post.is_err() {
+                    return Outcome::Ok;
+                }
+                match check_against_reference(&pre, &reference, &obs, ctx) {
+                    Ok(()) => Outcome::Ok,
+                    Err(v) => v,
+                }
+            }
+        }
     }
+
+    fn shrink_candidates(&self) -> Vec<Self> {
+        let mut out = Vec::new();
+        for ci in 0..self.cands.len() {
+            if ci == self.violator {
+                continue;
+            }
+            let mut s = self.clone();
+            s.cands.remove(ci);
+            if ci < s.violator {
+                s.violator -= 1;
+            }
+            out.push(s);
+        }
+        if self.workers > 1 {
+            let mut s = self.clone();
+            s.workers = 1;
+            out.push(s);
+        }
+        if self.also_panic && !matches!(self.dishonesty, Dishonesty::PanicOnly) {
+            let mut s = self.clone();
+            s.also_panic = false;
+            for inst in &mut s.state.insts {
+                for (_, _, p) in &mut inst.progs {
+                    if p.nonce == 0x4000_0000 {
+                        p.steps.retain(|st| !matches!(st, Step::Panic));
+                    }
+                }
+            }
+            out.push(s);
+        }
+        for (ii, inst) in self.state.insts.iter().enumerate() {
+            for (pi, (_, _, p)) in inst.progs.iter().enumerate() {
+                if p.steps.len() > 1 {
+                    for si in 0..p.steps.len() {
+                        if matches!(p.steps[si], Step::Panic | Step::CrossWarpUpsert { .. } | Step::InstanceOp { .. } | Step::DeleteInstance { .. }) {
+                            continue;
+                        }
+                        let mut s = self.clone();
+                        s.state.insts[ii].progs[pi].2.steps.remove(si);
+                        out.push(s);
+                    }
+                }
+            }
+        }
+        for ii in 0..self.state.insts.len() {
+            let mut s = self.clone();
+            if s.state.insts[ii].edge_atts.pop().is_some() {
+                out.push(s);
+            }
+            let mut s = self.clone();
+            if s.state.insts[ii].node_atts.pop().is_some() {
+                out.push(s);
+            }
+        }
+        out
+    }
+}
+
+enum Expected {
+    NothingWrong,
+    Omitted(Access),
+    Kind(String),
+}
+
+fn short(r: &TickResult) -> String {
+    match r {
+        TickResult::Committed(_) => "Committed".to_owned(),
+        other => format!("{other:?}"),
+    }
+}
+
+fn expected_kind(a: &Access) -> String {
+    let k = match a {
+        Access::NRead(n) => ViolationKind::NodeReadNotDeclared(*n),
+        Access::NWrite(n) => ViolationKind::NodeWriteNotDeclared(*n),
+        Access::ERead(e) => ViolationKind::EdgeReadNotDeclared(*e),
+        Access::EWrite(e) => ViolationKind::EdgeWriteNotDeclared(*e),
+        Access::ARead(k) => ViolationKind::AttachmentReadNotDeclared(*k),
+        Access::AWrite(k) => ViolationKind::AttachmentWriteNotDeclared(*k),
+    };
+    format!("{k:?}")
+}
+
+/// Did the observable content guarded by write access `a` change between `pre` and `post`?
+/// NWrite(n): node record or out-adjacency of n; EWrite(e): edge record/existence; AWrite(k): attachment.
+fn location_changed(a: &Access, vc: &Cand, pre: &RefState, post: &RefState) -> bool {
+    let w = ids::warp(vc.w).0;
+    let (Some(p), Some(q)) = (pre.inst.get(&w), post.inst.get(&w)) else { return true };
+    match a {
+        Access::NWrite(NodeId(n)) => {
+            let adj = |i: &crate::model::refstate::RefInst| -> Vec<([u8; 32], [u8; 32], [u8; 32])> {
+                i.edges.iter().filter(|(_, (f, _, _))| f == n).map(|(id, (_, t, ty))| (*id, *t, *ty)).collect()
+            };
+            p.nodes.get(n) != q.nodes.get(n) || adj(p) != adj(q)
+        }
+        Access::EWrite(EdgeId(e)) => p.edges.get(e) != q.edges.get(e),
+        Access::AWrite(k) => match crate::model::refstate::key_of(k) {
+            Ok(RefKey::Node(_, n)) => p.node_att.get(&n) != q.node_att.get(&n),
+            Ok(RefKey::Edge(_, e)) => p.edge_att.get(&e) != q.edge_att.get(&e),
+            Err(_) => true,
+        },
+        _ => false,
+    }
+}
+
+/// True when the omitted NWrite is only there because an upsert re-parents an existing edge away
+/// from that node (the guard attributes `record.from` and the edge id only).
+fn is_prev_source_only(a: &Access, vref: &crate::world::tick::RefCand, vc: &Cand) -> bool {
+    let Access::NWrite(n) = a else { return false };
+    let w = ids::warp(vc.w);
+    let none = |_: &EdgeId| None;
+    let without_prev = crate::world::prog::honest_accesses(&vref.prog, w, &vc.scope(), &none, false);
+    !without_prev.contains(&Access::NWrite(*n))
 }
